@@ -52,6 +52,17 @@ def check(rep, tier, seed):
             n *= x
         vals = [random_bits(rng) for _ in range(n)]
         hexes.append((sh, vals, run_impl(["npyw %s %s" % (fmt(sh), ",".join(tok(v) for v in vals))])[0]))
+    # the same arrays as NPY 2.0 and 3.0 files (4-byte header length at offsets 8..11; sfs itself writes 1.0 only)
+    import struct
+
+    def reversion(hx, major):
+        b = bytes.fromhex(hx)
+        hl = struct.unpack("<H", b[8:10])[0]
+        d = b[10:10 + hl].rstrip(b" \n")
+        pad = (-(6 + 2 + 4 + len(d) + 1)) % 64
+        hdr = d + b" " * pad + b"\n"
+        return (b[:6] + bytes([major, 0]) + struct.pack("<I", len(hdr)) + hdr + b[10 + hl:]).hex()
+    hexes += [(sh, vals, reversion(hx, major)) for sh, vals, hx in hexes[:3] for major in (2, 3)]
     for sh, vals, hx in hexes:
         L = len(hx) // 2
         for sc in schedules(L, rng, exhaustive_first=True):
